@@ -27,7 +27,7 @@ def jobs(tier):
 
 BOUNDS = {'quick': 'all digraphs (self loops included) on <=3 files chosen lazily along the run, input lists with duplicates, output-name and '
                    './ spellings and directories, recursive and non-recursive scanning, every completion order',
-          'thorough': 'digraphs on 4 files with out-degree <=2'}
+          'thorough': 'all digraphs on 3 files for 17 input lists; digraphs on 4 files with out-degree <=1, two selections; failing task among 5 files'}
 from . import project as _project
 BOUNDS = {k: v + _project.bounds_note('C03', k) for k, v in BOUNDS.items()}
 ASSUMPTIONS = ['as C02; aliases are spellings that canonicalize to the same path in the FS model; symbolic links occur only in the project layouts `links` / `links-ok` (a linked source file, a linked sub-directory)',
